@@ -12,7 +12,7 @@ RULE = ('one run = one seeded scenario (CONNECT tunnel carrying byte strings bot
         'one proxy send() was short or hit EAGAIN and at least one payload byte was relayed; distinct '
         '= distinct event-log digests among non-trivial runs')
 STATE_MEASURE = 'not measured for this property'
-PROBES = ['request_connection_close', 'bulk', 'tunnel', 'http', 'threaded', 'tunnel_class', 'partial_flush_tail', 'both_directions_inflight']
+PROBES = ['origin_writes_before_reading', 'request_connection_close', 'bulk', 'tunnel', 'http', 'threaded', 'tunnel_class', 'partial_flush_tail', 'both_directions_inflight']
 COMPONENTS = {
     'real': ['proxy/core/work/threadless.py', 'proxy/core/work/fd/*.py', 'proxy/core/work/threaded.py',
              'proxy/http/handler.py', 'proxy/http/proxy/server.py', 'proxy/core/base/tcp_server.py',
@@ -131,10 +131,16 @@ def run_one(tape: Any, cfg: Dict[str, Any], forbid: FrozenSet[str] = frozenset()
                         ops.append(('close',))
                     return ops
                 return [('serve', responder, nresp)]
+            if writes_first:
+                return [('send', B, 'dribble', maxchunk), ('resume_read',)]
             return [('send', B, 'dribble', maxchunk)]
 
+        # a plain blocking server: it does not read what the client sends until it has written all it has to say
+        writes_first = mode != 'http' and tape.coin(0.2, 'origin-writes-first')
+        if writes_first:
+            w.probe('origin_writes_before_reading')
         org = Origin(w, '10.0.0.1', port, origin_script, name='up', cap_in=caps[0], cap_out=caps[1],
-                     read_mode='eager' if bulk else 'chunky')
+                     read_mode='eager' if bulk else 'chunky', reading=not writes_first)
         org.remote.faultable = faults      # type: ignore[attr-defined]
 
         def origin_tx() -> bytes:
